@@ -41,6 +41,16 @@ def extra_unit_root_specs():
     out.append(S(2, [rw, ar2], [dict(terms=[(1, 0, 2.0)], const=0.0, shock=False)], False, "ur_ar2"))
     fwd = dict(terms=[(1, +1, 0.5), (0, 0, 0.3), (0, -1, -0.3)], const=0.0, shock=True)
     out.append(S(2, [rw, fwd], [dict(terms=[(1, 0, 1.0)], const=0.0, shock=True)], False, "ur_forward"))
+    # two unit roots: symmetric random walks a, b, a stationary c, and variables that load on the two with
+    # equal and with opposite signs (tot = a + b + c, spr = a - b + c): the loadings of spr on the unit-root part cancel
+    # when summed but not entry by entry; observed: a - b + noise, c
+    rwa = dict(terms=[(0, -1, 1.0)], const=0.0, shock=True)
+    rwb = dict(terms=[(1, -1, 1.0)], const=0.0, shock=True)
+    cc = dict(terms=[(2, -1, 0.5)], const=0.0, shock=True)
+    tot = dict(terms=[(0, 0, 1.0), (1, 0, 1.0), (2, 0, 1.0)], const=0.0, shock=False)
+    spr = dict(terms=[(0, 0, 1.0), (1, 0, -1.0), (2, 0, 1.0)], const=0.0, shock=False)
+    out.append(S(5, [rwa, rwb, cc, tot, spr], [dict(terms=[(0, 0, 1.0), (1, 0, -1.0)], const=0.0, shock=True),
+                                              dict(terms=[(2, 0, 1.0)], const=0.0, shock=False)], False, "ur_two_symmetric"))
     out.append(linre.oscillating_spec("two"))
     out.append(linre.oscillating_spec("one"))
     out.append(linre.shared_measurement_shock_spec())
